@@ -335,11 +335,15 @@ def r6_reentrant(ctx, F):
     for f, c in sites:
         t = top_fn(F, f)
         dis = calls_by_name(f, r"Evaluator::<'v, 'a, 'e>::disable_gc$")
-        if re.search(r"assert::assert::Assert", t.qpath):
-            ctx.ok("C03.R6", "eval_module<-" + t.qpath, "test helper creating its own evaluator")
+        recv = origins(f, c.args[0]) if c.args else set()
+        fresh = bool(recv) and all(o[0] == "call" and re.search(r"evaluator::Evaluator::<'v, 'a, 'e>::new$", o[1].name)
+                                   for o in recv)
+        if fresh:
+            ctx.ok("C03.R6", "eval_module<-" + short_fn(t.qpath) + ":fresh-evaluator",
+                   "the evaluator is created in this body (Evaluator::new): not a re-entrant evaluation")
             continue
         ctx.check(bool(dis) and any(f.dominates(d.bb, c.bb) and d.bb != c.bb for d in dis), "C03.R6",
-                  "eval_module<-" + t.qpath,
+                  "eval_module<-" + short_fn(t.qpath),
                   "disable_gc dominates the nested eval_module call",
                   "`%s` re-enters eval_module on a live evaluator without disable_gc first: a top-level GC point of "
                   "the nested module runs while outer frames hold untraced values" % t.qpath, fn=f, line=c.line)
